@@ -160,6 +160,13 @@ func genBCase(r *Rng, w *CaseWriter, k int) {
 	if d.G == "Div" && isInt(t) && r.Intn(3) > 0 && c.Vals[2].I == 0 {
 		c.Vals[2].I = 3
 	}
+	// equal values in distinct objects: the boundary of the comparisons (Greater/Smaller/Min/Max/Equals)
+	if r.Intn(4) == 0 {
+		c.Vals[1] = c.Vals[0]
+	}
+	if r.Intn(4) == 0 {
+		c.Vals[2] = c.Vals[1]
+	}
 	c.Alias = d.Ar >= 1 && !d.Pred && r.Intn(5) == 0
 	if c.Alias {
 		c.Vals[1] = c.Vals[0]
